@@ -622,8 +622,8 @@ func init() {
 			"the requesting administrator holds every account privilege and is not itself edited by the history (authorisation is C05/C06)",
 			"update-user sub-records are well-formed field lists (count + fields)",
 		}
-		x.Add(&Family{Name: "histories", Quick: 300, Thor: 2500, Run: func(c *Case) { c15History(c, 0) }})
-		x.Add(&Family{Name: "rename-chains", Quick: 80, Thor: 600, Run: func(c *Case) { c15History(c, 1) }})
+		x.Add(&Family{Name: "histories", Quick: 200, Thor: 2000, Run: func(c *Case) { c15History(c, 0) }})
+		x.Add(&Family{Name: "rename-chains", Quick: 60, Thor: 500, Run: func(c *Case) { c15History(c, 1) }})
 		x.Add(&Family{Name: "long-logins", Quick: 32, Thor: 200, Run: c15LongLogins})
 		x.Add(&Family{Name: "yaml-unsafe-strings", Quick: 20, Thor: 100, Run: c15YamlUnsafe})
 	}
